@@ -8,7 +8,8 @@ symbolic values) with these additions:
   (cf/sqrt(3) * s)^2 * 3/s^2 == cf^2 are decided exactly and not up to the rounding of 1.7320508....
 * np.round(x, decimals=d) with d != 0 is an uninterpreted function of (x, d): a deterministic
   function of its input about which nothing else is assumed.
-* np.finfo(dtype).eps is one symbolic constant eps >= 0 per session (covers float32 and float64).
+* np.finfo(dtype).eps is a per-session constant: the machine epsilon the check selects with
+  set_session_eps (float64 / float32 are enumerated by C37), or one symbolic eps >= 0 if none was set.
 * np.argmin / np.argmax / np.searchsorted / np.min / np.max over an axis of SYMBOLIC length are
   replaced by their documented numpy contracts (assumed, listed in STUBS of the property module):
   a fresh result constrained by the contract; the universally quantified part of the contract is
@@ -52,6 +53,12 @@ def session_eps():
         ctx().assume(e >= 0)
         st["eps"] = SymNum(e)
     return st["eps"]
+
+
+def set_session_eps(value):
+    """fix np.finfo(...).eps for this session to a concrete machine epsilon (keeps the uniformity
+    tolerance linear in the edge values)"""
+    _state()["eps"] = value
 
 
 def instantiate_contracts(j):
